@@ -196,6 +196,8 @@ def truthy(v):
         return z3.And(s.is_some(v.z), truthy(inner))
     if is_str(t) or isinstance(t, TList):
         return seq_len(v) > 0
+    if isinstance(t, T.TSet):
+        return v.z != z3.K(t.elem.sort(), False)       # a set is truthy iff it is not the empty set (extensional)
     if isinstance(t, TEnum):
         return z3.BoolVal(True)
     if isinstance(t, TRef):
